@@ -449,6 +449,87 @@ func runCloseUnderFire(sp *StressSpec) *verr {
 	return nil
 }
 
+// runDrainRace: a backlog of more than a thousand distinct items is drained by a free-running consumer
+// while a producer inserts fresh items, each twice back to back, around the moment the queue runs empty.
+// Oracle (sound under every schedule): once BOTH insertions of an item have returned, at most one delivery
+// of it can still begin (invocations of Next that started after that instant deliver the item at most once:
+// the second insertion either coalesced into the pending one or found it already taken).
+func runDrainRace(sp *StressSpec) *verr {
+	q := coalesce.NewQueue()
+	ctx, cancel := context.WithCancel(context.Background())
+	defer cancel()
+	backlog := 1030 + 37*sp.Items
+	for i := 0; i < backlog; i++ {
+		q.Insert(i)
+	}
+	var seq, deliveredN atomic.Int64
+	type del struct {
+		item          int
+		dup           uint32
+		invoke, retrn int64
+	}
+	var dels []del
+	consumerDone := make(chan error, 1)
+	go func() {
+		for {
+			inv := seq.Add(1)
+			it, dup, err := q.Next(ctx)
+			if err != nil {
+				consumerDone <- err
+				return
+			}
+			x, _ := it.(int)
+			dels = append(dels, del{x, dup, inv, seq.Add(1)})
+			deliveredN.Add(1)
+		}
+	}()
+	type pair struct {
+		item   int
+		second int64 // stamp taken after the second insertion returned
+		fresh2 bool
+	}
+	var pairs []pair
+	pdone := make(chan struct{})
+	go func() {
+		defer close(pdone)
+		for deliveredN.Load() < int64(backlog-8) {
+			runtime.Gosched()
+		}
+		for k := 0; k < 24; k++ {
+			x := 1_000_000 + k
+			if _, err := q.Insert(x); err != nil {
+				return
+			}
+			f2, err := q.Insert(x)
+			if err != nil {
+				return
+			}
+			pairs = append(pairs, pair{x, seq.Add(1), f2})
+		}
+	}()
+	<-pdone
+	synctest.Wait()
+	q.Close()
+	synctest.Wait()
+	select {
+	case <-consumerDone:
+	default:
+		return newVerr("stuck-consumer", "consumer still blocked in Next after Close")
+	}
+	for _, p := range pairs {
+		late := 0
+		for _, d := range dels {
+			if d.item == p.item && d.invoke > p.second {
+				late++
+			}
+		}
+		if late > 1 {
+			return newVerr("duplicate-delivery", "item %d was inserted twice (second insertion returned fresh=%v) and, after both insertions had returned, %d invocations of Next began that each delivered it (backlog of %d drained just before)", p.item, p.fresh2, late, backlog)
+		}
+	}
+	return nil
+}
+
 func runStress(t *testing.T, sp *StressSpec) (err error) {
 	defer func() {
 		if r := recover(); r != nil {
@@ -460,6 +541,9 @@ func runStress(t *testing.T, sp *StressSpec) (err error) {
 			v := runStressOnce(sp)
 			if v == nil && r%2 == 1 {
 				v = runCloseUnderFire(sp)
+			}
+			if v == nil && r%3 == 2 {
+				v = runDrainRace(sp)
 			}
 			if v != nil {
 				err = fmt.Errorf("round %d: %w", r, v)
